@@ -15,7 +15,8 @@ _ENUM_NAME = {internal: name for name, internal in ENUM_VALUES}
 class Expected:
     __slots__ = ("data", "errors", "resolved", "invoked", "crash",
                  "positions", "root_keys", "merged_groups", "frag_applied",
-                 "frag_rejected", "max_list", "root_spans")
+                 "frag_rejected", "max_list", "root_spans", "arg_errors",
+                 "uncalled")
 
     def __init__(self):
         self.data = None
@@ -29,6 +30,8 @@ class Expected:
         self.frag_applied = 0
         self.frag_rejected = 0
         self.max_list = 0
+        self.arg_errors = 0
+        self.uncalled = set()  # resolved paths whose resolver is not called
 
 
 def serialize_leaf(base, v):
@@ -113,6 +116,17 @@ class Model:
         exp.resolved.append(path)
         if node.name == "__typename":
             return tname
+        if node.argerr:
+            # assembling the arguments fails: a field error, the resolver is
+            # never invoked (field hooks still fire, start and end)
+            exp.errors.append({
+                "path": path, "kind": "coercion", "message": None,
+                "first": node.pos,
+                "group": frozenset(n.pos for n in nodes), "ext": None,
+            })
+            exp.arg_errors += 1
+            exp.uncalled.add(path)
+            return None
         exp.invoked.append(path)
         exp.positions.append((path, "field"))
         fdef = self.spec.fields[node.name]
